@@ -80,6 +80,25 @@ class SList:
             k = self.length + k
         return self.elem(P(k))
 
+    def setitem(self, k, v):
+        """lst[k] = v with a symbolic index: later reads at an index syntactically equal to k see v; reads at an index
+        that cannot be told apart from k are outside the subset"""
+        if self.filt is not None:
+            raise ModelError("store into a filtered list")
+        from .terms import P as _P, equal as _eq
+        k = _P(k)
+        old = self.elem
+
+        def elem(j, k=k, v=v, old=old):
+            j = _P(j)
+            if _eq(j, k):
+                return v
+            kj, kk_ = j.as_int(), k.as_int()
+            if kj is not None and kk_ is not None and kj != kk_:
+                return old(j)
+            raise ModelError("read of a list element at an index that may or may not be the stored one")
+        self.elem = elem
+
     def store_rows(self, a, masks, kept, fixed):
         """X[mask] = [g(c) for c in range(n) if cond(c)]  -- rows where the mask
         holds receive the list elements in order; requires mask == filter."""
